@@ -54,6 +54,9 @@ def calls_named(func, name):
     return [c for c in walk_shallow(func, include_self=False) if isinstance(c, ast.Call) and dotted(c.func) == name]
 
 
+FAILFAST_IMPLEMENTERS = ("TestResult", "ExtendedToOriginalDecorator", "TestByTestResult")
+
+
 def run(ctx):
     ctx.rule("R-VERDICT-LISTS", "wasSuccessful reads exactly the lists failing outcomes of the class append to, or delegates to all wrapped results")
     ctx.rule("R-SUMMARY-AGREES", "TextTestResult summary is driven by wasSuccessful() and the same three lists")
@@ -248,14 +251,19 @@ def run(ctx):
     from ..absint import FALSE as A_FALSE, TRUE as A_TRUE
 
     def stop_counts(c, func, failfast):
-        """Set of numbers of self.stop() calls over the normal paths of func, with self.failfast = failfast."""
-        dom = effects.EffectDomain(classes, attrs={"self.failfast": failfast, "self._failfast": failfast}, track=lambda d: d == "self.stop")
-        params = [a.arg for a in func.args.args][1:]
-        argv = {p_: ("arg", p_) for p_ in params}
-        if "err" in argv and "details" in argv:
-            argv["details"] = "None"   # callers pass exactly one of err / details
-        res = effects.run(ctx, dom, func, c, argv)
-        return {len(effects.calls(r, "self.stop")) for r in res if r.kind == "val"}
+        """Set of numbers of self.stop() calls over the normal paths of func, with the public self.failfast = failfast.
+        A private backing field (`_failfast`, used by adapters as a fallback when the wrapped result has no failfast
+        of its own) is tried with both values: the decision must follow the public attribute, not the private one."""
+        out = set()
+        for private in (A_TRUE, A_FALSE):
+            dom = effects.EffectDomain(classes, attrs={"self.failfast": failfast, "self._failfast": private}, track=lambda d: d == "self.stop")
+            params = [a.arg for a in func.args.args][1:]
+            argv = {p_: ("arg", p_) for p_ in params}
+            if "err" in argv and "details" in argv:
+                argv["details"] = "None"   # callers pass exactly one of err / details
+            res = effects.run(ctx, dom, func, c, argv)
+            out |= {len(effects.calls(r, "self.stop")) for r in res if r.kind == "val"}
+        return out
 
     n_ff = 0
     for c in sorted(real_classes, key=lambda c: c.node.lineno):
@@ -264,7 +272,9 @@ def run(ctx):
             f = c.methods.get(m)
             if f is not None and any(n_ >= 1 for n_ in stop_counts(c, f, A_TRUE)):
                 consult.append(m)
-        if not consult:
+        # classes confirmed (by reading, on the pinned tree) to implement failfast in their outcome methods are checked
+        # whether or not they still consult the flag there: moving the stop elsewhere (stopTest, wasSuccessful ...) delays it
+        if not consult and c.name not in FAILFAST_IMPLEMENTERS:
             continue
         for m in sorted(FAILING | PASSING):
             f = c.methods.get(m)
